@@ -204,8 +204,7 @@ def run(ctx: Ctx) -> None:
                 ctx.mismatch("option routes: implementation and model differ", {"request": ln, "impl": a[-300:], "model": b[-300:]})
         # tie of the modelled block sub-parser (mini_provenance is a theorem about exactly this model)
         from . import miniblock
-        miniblock.tie(ctx, drv, 2500 if quick else 60000)
-        miniblock.tie_quote(ctx, drv, 2500 if quick else 60000)
+        miniblock.tie_all(ctx, drv, quick)
     finally:
         drv.close()
     ctx.partial += [
